@@ -1,6 +1,7 @@
 import Proofs.OpParser
 import Proofs.OpTable
 import HclModel.Gen.BinaryOps
+import Proofs.Template
 /-!
 # C01 — expression evaluation conforms to the specification (operator grammar part)
 
@@ -48,3 +49,65 @@ example : parse (tblOf Gen.binaryOps)
   simp [parse, hL, parseLevel, loopLevel, parseTerm, h45, h42, h43]
 
 end HclModel.OpParser
+
+/-! ## the template sub-language: strip markers, flush heredocs, melding
+
+`HclModel/Syntax/Template.lean` models what `parseTemplateParts`, `flushHeredocTemplateParts` and
+`meldConsecutiveStringLiterals` do to the scanner's template tokens; it is tied to the real template parser by
+the `TMPL` correspondence (generated quoted templates and plain / flush heredocs with interpolations, `if` /
+`else` / `for` directives, strip markers on every opener and closer, CRLF line endings; the model's tokens are
+compared with the tree the parser built).  `sp` stands for `unicode.IsSpace`: every theorem holds whatever
+it answers. -/
+namespace HclModel.Template
+
+/-- Whatever the strip markers, the flush rule and melding do, they remove white space only: the non-space
+    characters and the `${ … }` / `%{ … }` sequences of a template come out exactly as written, in order — for
+    quoted templates and both kinds of heredoc. -/
+theorem process_preserves_content (sp : Char → Bool) (flushHeredoc : Bool) (raws : List Raw) :
+    skel sp (process sp flushHeredoc raws) = skel sp (naive raws) := by
+  unfold process
+  cases flushHeredoc <;> simp [Proofs.skel_meld, Proofs.skel_flush, Proofs.skel_parts]
+
+/-- A template without strip markers is taken as written, white space included (an empty template is one empty
+    literal); with `process`, only the flush rule and melding apply. -/
+theorem no_markers_as_written (sp : Char → Bool) (raws : List Raw) (h : raws.all Proofs.noStrip = true) :
+    parts sp raws = (match naive raws with | [] => [.lit []] | ps => ps) :=
+  Proofs.parts_noStrip sp raws h
+
+/-- The flush rule removes the minimum of the counted indentations (`Proofs.counted`: the literals that start a
+    line and are not blank lines count with their leading white space, a sequence that starts a line counts 0,
+    everything else does not count), and nothing when no token counts. -/
+theorem flush_removes_minimum (sp : Char → Bool) (ps : List Part) :
+    flush sp ps = (match (Proofs.counted sp true ps).min? with
+                   | none => ps
+                   | some m => adjust sp m true ps) := by
+  unfold flush
+  rw [Proofs.minIndent_eq_min]
+  cases (Proofs.counted sp true ps).min? <;> rfl
+
+/-- Melding keeps all the text and leaves no two literals adjacent. -/
+theorem meld_keeps_text (ps : List Part) : text (meld ps) = text ps := Proofs.text_meld ps
+
+theorem meld_no_adjacent_literals (ps : List Part) : Proofs.noAdjacentLits (meld ps) = true :=
+  Proofs.meld_noAdjacent ps
+
+/-- A flush heredoc: the smallest indentation (2, of `  a`) is removed from every counted line; the blank line
+    and the deeper indentation keep what is left. -/
+example : process (fun c => c = ' ' || c = '\n') true
+    [.lit "  a\n".toList, .lit "    b\n".toList, .lit "\n".toList, .lit "  ".toList, .seq .interp 0 false false, .lit "\n".toList] =
+    [.lit "a\n  b\n\n".toList, .seq .interp 0, .lit "\n".toList] := by
+  simp [process, parts, stripStep, flush, minIndent, adjust, lineIndent, isBlankLine, endsNl, indentOf, nextNl, omin, meld]
+
+/-- A line that starts with a sequence has indentation 0: nothing is removed. -/
+example : process (fun c => c = ' ' || c = '\n') true
+    [.lit "  a\n".toList, .seq .interp 0 false false, .lit "\n".toList] =
+    [.lit "  a\n".toList, .seq .interp 0, .lit "\n".toList] := by
+  simp [process, parts, stripStep, flush, minIndent, adjust, lineIndent, isBlankLine, endsNl, indentOf, nextNl, omin, meld]
+
+/-- Strip markers trim the literal token next to the sequence, on the marked side only. -/
+example : process (fun c => c = ' ' || c = '\n') false
+    [.lit "a  ".toList, .seq .interp 0 true false, .lit "  b ".toList, .seq .ctrl 1 false true, .lit " c".toList] =
+    [.lit "a".toList, .seq .interp 0, .lit "  b ".toList, .seq .ctrl 1, .lit "c".toList] := by
+  simp [process, parts, stripStep, trimLast, trimRight, trimLeft, meld]
+
+end HclModel.Template
